@@ -95,18 +95,30 @@ Section Run.
   (* a case: lower bound, upper bound, max_ivals, steps *)
   Definition case := (float * float * nat * list (op float * eout * option obs))%type.
 
-  Fixpoint first_mismatch_i (s : st float) (k : nat) (l : list (op float * eout * option obs)) : option nat :=
+  (* the estimate's intervals form a cover of the root (Proofs: then they are a
+     contiguous partition), and once non-empty they stay non-empty *)
+  Definition cert_ok (seen : bool) (s : st float) : bool :=
+    match approximating_intervals PrimFloat.zero s with
+    | Some (k :: S) => partition_cert PrimFloat.zero s (k :: S)
+    | Some [] => negb seen
+    | None => false
+    end.
+  Definition has_estimate (s : st float) : bool :=
+    match approximating_intervals PrimFloat.zero s with Some (_ :: _) => true | _ => false end.
+
+  Fixpoint first_mismatch_i (seen : bool) (s : st float) (k : nat) (l : list (op float * eout * option obs)) : option nat :=
     match l with
     | [] => None
     | (o, eo, eb) :: l' =>
         let '(s', out) := fstep s o in
-        if out_eqb out eo && match eb with Some b => obs_eqb (observe s') b | None => true end
-        then first_mismatch_i s' (S k) l' else Some k
+        if out_eqb out eo && match eb with Some b => obs_eqb (observe s') b | None => true end &&
+           (halted s' || cert_ok seen s')
+        then first_mismatch_i (seen || has_estimate s') s' (S k) l' else Some k
     end.
 
   Definition check (c : case) : option nat :=
     let '(lo, hi, maxiv, steps) := c in
-    if xi_ok xi then first_mismatch_i (finit lo hi maxiv) 0 steps else Some 0.
+    if xi_ok xi then first_mismatch_i false (finit lo hi maxiv) 0 steps else Some 0.
 
   Definition final (c : case) : st float :=
     let '(lo, hi, maxiv, steps) := c in
